@@ -63,7 +63,9 @@ class IC10Register:
                 return self._lifetime
 
             for node in self.nodes_writing:
-                if node.scope().name == "":
+                # module-level variables live for the whole program; library
+                # modules are module scopes too (their name is not "")
+                if isinstance(node.scope(), nodes.Module):
                     self._lifetime = range(0, sys.maxsize)
                     break
 
